@@ -1,3 +1,30 @@
-import vf, raidgen
+import os, vf, raidgen, C02
 def jobs(tier, seed):
-    return []
+    quick = tier == 'quick'
+    J = []
+    exp = {'c02_expect.h': C02.expect_header()}
+    UT = raidgen.U_TABLES
+    UR = vf.Unit('raid/raid.c')
+    UC = vf.Unit('raid/check.c')
+    for n, ncol in ([(1, 251), (2, 12)] if quick else [(1, 251), (2, 12), (2, 251), (3, 12)]):
+        J.append(vf.Job('C03/minors/invert%d-cols%d' % (n, ncol), ['C03_misc.c'], harness_text=dict(exp), units=[UT, UR], entry='c03_invert', defines=['NINV=%d' % n, 'NCOL=%d' % ncol], unwind=8, timeout=1800 if quick else 7200, mem_gb=12, native=False,
+                        funcs=['raid_invert', 'raid_gfcauchy', 'raid_gfmul', 'raid_gfinv'], cost=200 * n, sample={'sub-matrix': '%dx%d' % (n, n), 'rows': 'symbolic increasing < 6', 'columns': 'symbolic increasing < %d' % ncol}))
+    J.append(vf.Job('C03/combination_next', ['C03_misc.c'], harness_text=dict(exp), units=[UT], entry='c03_combination', unwind=8, timeout=900, mem_gb=6, native=False, funcs=['combination_next'], cost=10,
+                    sample={'r': '1..4 symbolic', 'n': '<= 9 symbolic', 'tuple': 'symbolic strictly increasing'}))
+    J.append(vf.Job('C03/combination-negctl', ['C03_misc.c'], harness_text=dict(exp), units=[UT], entry='c03_negctl', defines=['NEGCTL'], unwind=8, kind='negctl', native=False, sample={'wrong_oracle': 'always a next combination'}))
+    J.append(vf.Job('C03/check_index', ['C03_misc.c'], harness_text=dict(exp), units=[UT, UR, vf.Unit('raid/check.c', remove=['__CPROVER_file_local_check_c_raid_validate'])], entry='c03_check_index', defines=['RECORDER'], unwind=8,
+                    timeout=900, mem_gb=6, native=False, funcs=['raid_check'], cost=10, sample={'nd': '1..5', 'np': '1..6', 'failed index list': 'symbolic'}))
+    # consistency test: nd=2, np=3, size 8; candidate sets x one unlisted corrupted block
+    nd, np_ = 2, 3
+    cands = [0, 1 << 0, 1 << 1, 1 << 2, 1 << 4, (1 << 0) | (1 << 1), (1 << 0) | (1 << 2), (1 << 1) | (1 << 4)] if not quick else [0, 1 << 0, 1 << 2, (1 << 0) | (1 << 1)]
+    for L in cands:
+        listed = [i for i in range(nd + np_) if L >> i & 1]
+        nrd = len([i for i in listed if i < nd]); nvalid = np_ - len([i for i in listed if i >= nd])
+        if nrd >= nvalid:
+            continue
+        for extra in [-1] + [i for i in range(nd + np_) if i not in listed]:
+            ht = dict(exp); ht['vf_rows.h'] = raidgen.table_rows_text()
+            J.append(vf.Job('C03/validate/listed%s/extra%s' % ('_'.join(map(str, listed)) or 'none', extra if extra >= 0 else 'none'), ['C03_misc.c'], harness_text=ht,
+                            units=[UT, vf.Unit('raid/raid.c', remove=[raidgen.TABLE_FN]), vf.Unit('raid/check.c', remove=[raidgen.TABLE_FN])], entry='c03_validate', defines=['LISTED=%d' % L, 'EXTRA=%d' % extra, 'VND=%d' % nd, 'TABLE_SUBST'], unwind=10, timeout=1800 if quick else 7200, mem_gb=12, native=True,
+                            funcs=['raid_validate', 'raid_invert'], cost=100, sample={'nd': nd, 'np': np_, 'size': 8, 'listed failure set': listed, 'unlisted corrupted block': extra, 'data / garbage / corruption delta': 'symbolic'}))
+    return J
